@@ -235,7 +235,7 @@ func init() {
 		Shards: shards(14, 16),
 		Meta: func(tier string) rt.Meta {
 			return rt.Meta{Level: "exploration", MinEvals: 20000, MinDistinct: 200,
-				Rule:        "differential against the kernel under a switched fsuid/fsgid (no supplementary groups) in a chroot on tmpfs: configurations /w/d1/d2/x and /w/e1/y with (owner, group, 9 permission bits) per node, acting user among owner / same-group / other / administrator / an ordinary user whose primary group is gid 0, umask among {0,002,022,027,077,0777}; 42 calls (incl. Glob patterns and WalkDir across the configured directories). Exhaustive part: for every call, every one of the 512 modes of EACH ONE of d1, d2, x, e1 (others fully open) x 6 owner/group assignments x 5 users (quick: a seed-dependent 1/8 of the modes); random part: all nodes random. Compared: allow/refuse, errno, returned values, and the whole tree afterwards (owner, group, mode of created objects). Signature = call | kind of x | actor class | the actor's effective rwx on each node | outcome; non-trivial = acting user is not the administrator.",
+				Rule:        "differential against the kernel under a switched fsuid/fsgid (no supplementary groups) in a chroot on tmpfs: configurations /w/d1/d2/x and /w/e1/y with (owner, group, 9 permission bits) per node, acting user among owner / same-group / other / administrator / an ordinary user whose primary group is gid 0, umask among {0,002,022,027,077,0777,0222,0111}; 42 calls (incl. Glob patterns and WalkDir across the configured directories). Exhaustive part: for every call, every one of the 512 modes of EACH ONE of d1, d2, x, e1 (others fully open) x 6 owner/group assignments x 5 users (quick: a seed-dependent 1/8 of the modes); random part: all nodes random. Compared: allow/refuse, errno, returned values, and the whole tree afterwards (owner, group, mode of created objects). Signature = call | kind of x | actor class | the actor's effective rwx on each node | outcome; non-trivial = acting user is not the administrator.",
 				Assumptions: []string{"only the 9 permission bits are assigned (no setuid/setgid/sticky)", "fs.protected_hardlinks=1 on this kernel: Link of a file the caller neither owns nor can read+write is excluded and counted"}}
 		},
 		Timeout: func(tier string) int {
@@ -253,7 +253,7 @@ func init() {
 			step := c.Pick(8, 1)
 			// exhaustive: one node at a time through all 512 modes
 			for ni := 0; ni < 4; ni++ {
-				for _, own := range c03Owners {
+				for oi, own := range c03Owners {
 					for mode := uint32(0); mode < 512; mode++ {
 						if step > 1 && (int(mode)+int(c.Seed)+ni)%step != 0 {
 							continue
@@ -263,22 +263,26 @@ func init() {
 							if idx%c.NShards != c.Shard {
 								continue
 							}
-							for _, xkind := range []string{"f", "d", "-"} {
+							for ki, xkind := range []string{"f", "d", "-"} {
 								if ni == 2 && xkind == "-" {
 									continue
 								}
-								if xkind != "f" && (int(mode)+actor)%3 != 0 {
+								// independent selectors (a multiplicative hash of the whole case) for the kind filter, the umask and the
+								// third of the calls: selectors derived from the same small sum left some combinations (a directory or
+								// missing x with a umask that clears the owner's bits) unvisited
+								hx := (uint64(mode)*2654435761 + uint64(actor)*40503 + uint64(ni)*7919 + uint64(oi)*104729 + uint64(ki)*1299709 + uint64(c.Seed)*15485863) * 0x9E3779B97F4A7C15
+								if xkind != "f" && (hx>>13)%3 != 0 {
 									continue // the file case gets every mode, the directory/missing cases one in three
 								}
-								cfg := c03Cfg{nodes: c03Default(), actor: actor, umask: []uint32{0o022, 0, 0o077, 0o027, 0o002, 0o777}[(int(mode)+actor)%6]}
+								cfg := c03Cfg{nodes: c03Default(), actor: actor, umask: []uint32{0o022, 0, 0o077, 0o027, 0o002, 0o777, 0o222, 0o111}[(hx>>29)%8]}
 								cfg.nodes[2].kind = xkind
 								if xkind == "d" {
 									cfg.nodes[2].mode = 0o777
 								}
 								cfg.nodes[ni].uid, cfg.nodes[ni].gid, cfg.nodes[ni].mode = own[0], own[1], mode
 								for ci, o := range calls {
-									if (ci+int(mode)+idx)%3 != 0 {
-										continue // each (mode, actor) gets a third of the calls; over the modes every call meets every class
+									if (uint64(ci)+(hx>>41))%3 != 0 {
+										continue // each case gets a third of the calls; over the modes every call meets every class
 									}
 									k.one(cfg, o, "exhaustive-one-node")
 								}
@@ -294,7 +298,7 @@ func init() {
 					continue
 				}
 				r := c.Rand(fmt.Sprintf("rnd-%d", h))
-				cfg := c03Cfg{nodes: c03Default(), actor: r.IntN(len(c03Users)), umask: []uint32{0o022, 0, 0o077, 0o027, 0o002, 0o777, uint32(r.IntN(512))}[r.IntN(7)]}
+				cfg := c03Cfg{nodes: c03Default(), actor: r.IntN(len(c03Users)), umask: []uint32{0o022, 0, 0o077, 0o027, 0o002, 0o777, 0o222, 0o111, uint32(r.IntN(512))}[r.IntN(9)]}
 				for i := range cfg.nodes {
 					own := c03Owners[r.IntN(len(c03Owners))]
 					cfg.nodes[i].uid, cfg.nodes[i].gid, cfg.nodes[i].mode = own[0], own[1], randMode(r)
